@@ -87,7 +87,7 @@ func (k keyedReporter) Fail(key, detail string) {
 }
 
 func famFault(c *mon.Ctx) {
-	c.Family("fault", nCases(c, 21, 150), func(k *mon.Case) {
+	c.Family("fault", nCases(c, 21, 60), func(k *mon.Case) {
 		ps := k.Rand.Uint64()
 		cf := faultCfg(k.Rand)
 		k.Desc(map[string]any{"program_seed": ps, "cfg": cf})
